@@ -187,6 +187,13 @@ def ladder_configs(quick: bool) -> list[dict]:
         for nx, nt in rungs:
             out.append({"kind": kind, "table": tab, "nx": nx, "pf": pf, "pi": pi, "grid": "quadratic", "nt": nt,
                         "tend": 4.0, "sched": sched, "seed": 7 + fi, "ladder": fi, "ladder_nx": nx})
+    # space-only refinement on a fixed fine time grid with a schedule that changes: a one-sample error at every change of
+    # the schedule is not hidden by refining time as nx^2
+    for fj, (tab, pf, pi, sched) in enumerate([("synth_z:0.0002", 6000.0, 8000.0, "stepdown"),
+                                               ("synth_z:0.0", 5000.0, 9000.0, "stepdown")]):
+        for nx in (20, 40, 80):
+            out.append({"kind": "single", "table": tab, "nx": nx, "pf": pf, "pi": pi, "grid": "quadratic", "nt": 3200,
+                        "tend": 4.0, "sched": sched, "seed": 77 + fj, "ladder": 100 + fj, "ladder_nx": nx})
     return out
 
 
